@@ -394,7 +394,7 @@ func init() {
 			"initialisers only read variables; no dependency hidden behind interface method calls or function values stored in data",
 			"graphs whose order exposes a recorded known finding are repaired by the generator (excluded_by_construction counts them)",
 		},
-		Cases:  map[string]int{"quick": 320, "thorough": 8000},
+		Cases:  map[string]int{"quick": 800, "thorough": 8000},
 		Shards: map[string]int{"quick": 8, "thorough": 16},
 		Run:    run,
 		Replay: replay,
